@@ -239,7 +239,7 @@ pub fn run(ctx: &Ctx) -> Report
          contents are pairwise different. The same oracle runs on the real file system through the built binary (counter realfs_scenarios). Non-trivial = >=2 targets \
          came back, one of them executable or from a multi-target rule, and the no-command clause was live; distinct by case hash");
     rep.assume("Distinct clock; commands deterministic");
-    let (cases, max_rules, max_ops) = ctx.tier.pick((6000u32, 6usize, 10usize), (100000, 10, 30));
+    let (cases, max_rules, max_ops) = ctx.tier.pick((15000u32, 6usize, 10usize), (100000, 10, 30));
     rep.absorb(drive::drive(ctx, 10, cases, || strategy(max_rules, max_ops), |c, st| test_case(ctx, c, st)));
     // the same oracle on the real file system through the built binary
     let mut real = crate::verif::props::realp::run_c10_real(ctx, ctx.tier.pick(24, 300));
